@@ -113,6 +113,8 @@ macro_rules! wiring_validated {
                 check!(vv == pv, "validated value equals the unvalidated value on a valid hand");
                 check!(vv != 0 || cfg!(kani), "a valid hand has a non-zero value (real evaluator, native replay only)");
             }
+            #[cfg(not(kani))]
+            nasty_family::<$n>(|w| <$ty>::from(w).hand_rank_value_validated());
             cover!(valid, "a valid hand");
             cover!(!valid && cards, "duplicate real cards");
             cover!(!cards, "a corrupt hand");
@@ -176,3 +178,64 @@ macro_rules! wiring_defaults {
 wiring_defaults!(c04_defaults_five, ckc_rs::cards::five::Five, 5, crate::wiring::stub_five, stub_validated_five, true);
 wiring_defaults!(c04_defaults_six, ckc_rs::cards::six::Six, 6, crate::wiring::stub_six, stub_validated_six, false);
 wiring_defaults!(c04_defaults_seven, ckc_rs::cards::seven::Seven, 7, crate::wiring::stub_seven, stub_validated_seven, false);
+
+macro_rules! invalid_real {
+    ($name:ident, $ty:ty, $n:expr, $five:expr) => {
+        /// REAL code, nothing stubbed: every array of arbitrary words that is NOT a valid hand — the validated entry
+        /// points return 0 and never panic (so the evaluator, which may index out of range on such words, is not reached)
+        #[cfg_attr(kani, kani::proof)]
+        #[cfg_attr(kani, kani::unwind(23))]
+        pub fn $name() {
+            let a: [u32; $n] = sym::words::<$n>();
+            let (cards, distinct, _b, _m) = spec_valid(a);
+            sym::assume(!(cards && distinct));
+            let h = <$ty>::from(a);
+            check!(h.hand_rank_value_validated() == 0, "validated value of a non-hand is 0");
+            check!(h.hand_rank_validated() == HandRank::from(0), "validated rank of a non-hand is Invalid");
+            if $five {
+                check!(ckc_rs::evaluate::five_cards([a[0], a[1], a[2], a[3], a[4]]) == 0, "evaluate::five_cards of a non-hand is 0");
+            }
+            cover!(!cards && a[0] >> 29 != 0, "a word with flag bits");
+            cover!(cards && !distinct, "duplicate real cards");
+            cover!(!cards && (a[0] & a[1] & 0xF000) != 0 && a[0] != a[1], "non-cards sharing a suit bit");
+        }
+    };
+}
+invalid_real!(c04_invalid_five_real, Five, 5, true);
+// (Six/Seven: the same claim is c04_validated_six/seven with the evaluator abstracted — with the real evaluator
+// behind the validity test the formula does not finish; their native replay runs `nasty_family` on the real code.)
+
+/// native family for the validated entry points: word patterns on which the unvalidated evaluator indexes past its
+/// tables (flag bits on a flush, all ones, rank-OR exactly 7937, a near-miss card) — validated ranking must return 0
+#[cfg(not(kani))]
+pub fn nasty_family<const N: usize>(validated: impl Fn([u32; N]) -> u16) {
+    use crate::spec::cards::word;
+    let royal = [word(12, 3), word(11, 3), word(10, 3), word(9, 3), word(8, 3), word(7, 3), word(6, 3)];
+    let mut pats: Vec<[u32; N]> = Vec::new();
+    pats.push([u32::MAX; N]);
+    let mut flagged = [0u32; N];
+    let mut nearmiss = [0u32; N];
+    let mut suitless = [0u32; N];
+    for i in 0..N {
+        flagged[i] = royal[i];
+        nearmiss[i] = royal[i];
+        suitless[i] = word(12 - i as u32, (i % 4) as u32);
+    }
+    flagged[0] |= 1 << 29;
+    nearmiss[1] ^= 1;
+    suitless[N - 1] = 0x0101_0000;
+    pats.push(flagged);
+    pats.push(nearmiss);
+    pats.push(suitless);
+    for p in pats {
+        let mut q = p;
+        q.reverse();
+        for w in [p, q] {
+            if validated(w) != 0 {
+                crate::sym::native::note(format!("validated ranking of {:x?} is not 0", w));
+                crate::sym::native::fail("nasty-word family on the real code: validated ranking of a non-hand is not 0");
+                return;
+            }
+        }
+    }
+}
